@@ -220,7 +220,9 @@ def reg3(ctx: Ctx) -> None:
     else:
         ctx.R.ok("REG-3", "nested names are resolved through co_consts by co_name (code objects only), failing loudly when absent")
     rets = [s for s in fn.body if isinstance(s, ast.Return)]
-    if not (rets and norm(rets[-1].value) == "code"):
+    rv = norm(rets[-1].value) if rets and rets[-1].value is not None else None
+    updated_in_loop = {norm(a_.targets[0]) for a_ in ast.walk(outer[0]) if isinstance(a_, ast.Assign) and len(a_.targets) == 1 and isinstance(a_.targets[0], ast.Name)}
+    if rv is None or not (rv == "code" or rv in updated_in_loop):
         ctx.R.fail("REG-3", mod, fn, "get_code must return the resolved code object", construct="return code")
 
 
